@@ -91,7 +91,14 @@ class C12(Prop):
                 stmts.append(s)
             if rng.random() < 0.3:
                 stmts.insert(rng.randint(2, len(stmts)), rng.choice(FAILING))
-            stmts.append("RETURN = events;")
+            double = rng.random() < 0.25
+            if double:
+                # read the same bucket again after the first result was transformed in place: the second read must
+                # still be the direct windowed read
+                stmts.append('again = query_bucket("b0");')
+                stmts.append("RETURN = again;")
+            else:
+                stmts.append("RETURN = events;")
             w0 = T0 + rng.choice([-5, 0, 1, 3]) * SEC + rng.choice([0, 1, 999, 500_000])
             w1 = w0 + rng.choice([0, 1, 2, 6, 20]) * SEC + rng.choice([0, 1, 1000])
             for be in storelib.BACKENDS:
@@ -119,13 +126,16 @@ class C12(Prop):
                 r = query2.query("q", f'RETURN = query_bucket("{b}");', sd, ed, ds)
                 c = query2.query("q", f'RETURN = query_bucket_eventcount("{b}");', sd, ed, ds)
                 qb[b] = {"get": [ev_tuple(e) for e in r], "count": c}
+            ret = None
             try:
                 r = query2.query("q", case["prog"], sd, ed, ds)
                 res = ["ok", type(r).__name__]
+                if case["prog"].rstrip().endswith("RETURN = again;") and isinstance(r, list):
+                    ret = [ev_tuple(e) for e in r]
             except Exception as e:
                 res = ["err", err_kind(e)]
             after = storelib.dump(store)
-            return {"before": before, "mid": mid, "after": after, "direct": direct, "qb": qb, "res": res}
+            return {"before": before, "mid": mid, "after": after, "direct": direct, "qb": qb, "res": res, "second_read": ret}
         finally:
             store.close()
 
@@ -176,6 +186,9 @@ class C12(Prop):
                     return (f"the query ({out['res']}) changed bucket {b}: {json.dumps(out['before'][b], ensure_ascii=False)[:300]} -> "
                             f"{json.dumps(out['after'].get(b), ensure_ascii=False)[:300]}")
             return "the query changed the set of buckets"
+        if out.get("second_read") is not None and out["second_read"] != out["direct"]["b0"]["get"]:
+            return (f"a second query_bucket(b0) inside the query returned {json.dumps(out['second_read'], ensure_ascii=False)[:300]}, "
+                    f"the direct windowed read {json.dumps(out['direct']['b0']['get'], ensure_ascii=False)[:300]}")
         for b in ("b0", "b1"):
             if out["qb"][b] != out["direct"][b]:
                 return (f"query_bucket({b}) / eventcount {json.dumps(out['qb'][b])[:300]} differs from the direct windowed "
